@@ -150,7 +150,8 @@ pub fn set_body(rng: &mut Rng, r: &mut AReq, framing: Framing, n: usize) {
             r.declared = Some(n);
         }
         Framing::Chunked => {
-            r.hdrs.push((name_te, "chunked".into()));
+            // coding names are case-insensitive
+            r.hdrs.push((name_te, (*rng.pick(&["chunked", "chunked", "chunked", "Chunked", "CHUNKED"])).into()));
             r.declared = None;
         }
         Framing::Both => {
@@ -217,6 +218,9 @@ pub fn raw_message(id: usize, rng: &mut Rng) -> Vec<WOp> {
     let body = format!("raw-{}", id);
     let msg = format!("HTTP/1.1 200 OK\r\nContent-Length: {}\r\nX-Raw: {}\r\n\r\n{}", body.len(), id, body).into_bytes();
     let mut ops = vec![];
+    if rng.chance(1, 5) {
+        ops.push(WOp::F);
+    }
     match rng.below(3) {
         0 => ops.push(WOp::W(msg)),
         1 => {
@@ -311,6 +315,7 @@ pub fn gen_c02(rng: &mut Rng) -> ConnCase {
                 let n = *rng.pick(&[2000usize, 2000, 8700, 20000]);
                 format!("http://{}/{}", rand_token(rng, 6), rand_token(rng, n))
             }
+            3 if rng.chance(1, 2) => "/wiki/HTTP/2?cmp=HTTP/1.1".into(),
             3 => "/%20%00/..//a;b=c".into(),
             _ => format!("/{}", i),
         };
@@ -364,6 +369,22 @@ pub fn gen_c02(rng: &mut Rng) -> ConnCase {
             }
         }
         r.last = false;
+        // what a request says about itself stays the same while it is handled: also for an
+        // expectation that the library acts upon when the body is asked for
+        let expecting = r.framing == Framing::None && rng.chance(1, 10);
+        if expecting {
+            let n = *rng.pick(&[0usize, 4, 1200]);
+            r.hdrs.push((crate::recase(rng, "Expect"), "100-continue".into()));
+            r.expect100 = true;
+            set_body(rng, &mut r, Framing::Len, n);
+            reqs.push(r);
+            let mut a = simple_action(i, rng);
+            a.as_reader = 1;
+            a.read_total = n;
+            a.buf = 512;
+            script.push(a);
+            continue;
+        }
         reqs.push(r);
         script.push(simple_action(i, rng));
     }
@@ -921,11 +942,13 @@ pub fn gen_c18(rng: &mut Rng) -> ConnCase {
     }
     // a client that does not wait for the interim response (it is entitled not to)
     let eager = expect && rng.chance(1, 3);
-    let (ar, rd) = match rng.below(5) {
+    let (ar, rd) = match rng.below(6) {
         0 => (0, 0),
         1 => (1, n),
         2 => (3, n),
         3 => (1, n / 2),
+        // asks for the body and does not read: the interim response is due at the asking
+        5 => (1, 0),
         _ => (2, n + 1),
     };
     let a = Action { as_reader: ar, read_total: rd, buf: *rng.pick(&[1usize, 100, 4096]), delay_ms: 0, fin: Finish::Respond(ok_resp(0, rng)), zero_read: false };
